@@ -387,6 +387,9 @@ func report(prop string, runs []*run, known []knownEntry, tier string, seed int,
 		sens := sensitivity(prop, repo, verif)
 		ev["coverage"].(map[string]interface{})["sensitivity"] = sens
 		fmt.Printf("   sensitivity matrix (informational): applied=%v detected=%v missed=%v n/a=%v\n", sens["applied"], sens["detected"], sens["missed"], sens["not_applicable"])
+		mu := mutantsFor(prop, repo, verif)
+		ev["coverage"].(map[string]interface{})["independent_mutants"] = mu
+		fmt.Printf("   independent mutants (informational): %v of %v detected\n", mu["detected"], mu["mutants"])
 		ev["wall_s"] = time.Since(start).Seconds()
 	}
 	if writeEvidence {
